@@ -1081,6 +1081,9 @@ class Variable(CanBehaveLikeAVariable[T]):
             yield {}
             return
         (name, var), remaining_child_vars = child_vars[0], child_vars[1:]
+        # an argument (a sub-query given to a predicate) can be used by other queries as well: it asks whoever evaluates it,
+        # not the parent it was given last, what to keep of its rows.
+        var._eval_parent_ = self
         for value in var._evaluate_as_value_(copy(binding)):
             extended_binding = copy(binding)
             extended_binding.update(value)
